@@ -50,8 +50,12 @@ class Submodule(Module):
     def resolve_inherit(self, obj_tree, inherit_version):
         if not self.ancestor_name:
             return
+        self.ancestor_obj = None
         if self.ancestor_name in obj_tree:
-            self.ancestor_obj = obj_tree[self.ancestor_name][0]
+            ancestor_obj = obj_tree[self.ancestor_name][0]
+            # A submodule naming itself or one of its descendants as parent
+            if not self.links_back(ancestor_obj, "ancestor_obj"):
+                self.ancestor_obj = ancestor_obj
 
     def require_inherit(self):
         return True
